@@ -160,7 +160,8 @@ class StmtMixin:
             raise RaiseEx(nm.split(".")[-1], None, s.lineno)
         if isinstance(s, ast.Assert):
             c = self.truth(self.ev(s.test, st))
-            if self.cur_contract.get("asserts_checked"):
+            ac = self.cur_contract.get("asserts_checked")
+            if ac is True or (isinstance(ac, (list, tuple)) and any(x in ast.unparse(s.test) for x in ac)):
                 self.oblige(f"{self.cur}/assert@{ast.unparse(s.test)[:40]}", "assert", st, c, s.lineno)
                 st.pc.append(c.s)
                 return
